@@ -114,6 +114,10 @@ pub fn emit_fuzz_case_opt(rng: &mut Rng, temps: &[Vec<u8>], out: &mut Vec<String
     let ip = start;
     out.push(format!("new {} {:x} {:x}", hex(&code), start, ip));
     dec_all(&code, start, out);
+    if rng.chance(1, 8) {
+        // an empty area (a heap shrunk to nothing, `mem_init_zero(a, 0)`) early in the area list: it contains no address
+        out.push(format!("zero {:x} 0 ~", *rng.pick(&[0x5000u64, 0x1000, 0, 0x6fff_f000, 0x1000_0000])));
+    }
     // memory layout: stack page (not always), 0..3 data pages with arbitrary permissions
     let mut pages: Vec<u64> = vec![];
     let collides = |s: u64, l: u64, a: u64, al: u64| (s as u128) < a as u128 + al as u128 && (a as u128) < s as u128 + l as u128;
@@ -335,6 +339,67 @@ pub fn gen_c20(tier: &str, seed: u64, out: &mut Vec<String>) {
         raw.push("trace".into());
         raw.push("callstack".into());
         raw.push("render".into());
+    }
+    // single instructions on a machine where only the registers the instruction names — explicit operands, address registers and
+    // the implicit ones (iced's used-register analysis) — were ever written: outcome, error text and every named register must not
+    // depend on what the constructor left in the others
+    {
+        use iced_x86::{Decoder, DecoderOptions, InstructionInfoFactory, Register};
+        let mut factory = InstructionInfoFactory::new();
+        let k = if tier == "thorough" { 12_000 } else { 1_500 };
+        for _ in 0..k {
+            let tpl = rng.pick(&temps).clone();
+            let mut d = Decoder::with_ip(64, &tpl, CODE, DecoderOptions::NONE);
+            let ins = d.decode();
+            if ins.is_invalid() || ins.len() != tpl.len() {
+                continue;
+            }
+            let mut named: Vec<usize> = vec![4]; // RSP always
+            let mut xmm = false;
+            for u in factory.info(&ins).used_registers() {
+                let r = u.register();
+                let f = r.full_register();
+                if f.is_gpr64() {
+                    named.push(f.number());
+                } else if r.is_xmm() {
+                    xmm = true;
+                } else if f == Register::RIP || f == Register::EIP || r.is_segment_register() {
+                } else {
+                    named.clear();
+                    break;
+                }
+            }
+            if named.is_empty() || xmm {
+                continue;
+            }
+            named.sort();
+            named.dedup();
+            raw.push(format!("newraw {} {:x} {:x}", hex(&tpl), CODE, CODE));
+            dec_all(&tpl, CODE, &mut raw);
+            raw.push(format!("areaz {:x} 1000 {:x} Stack", STACK, rng.next()));
+            raw.push(format!("setflags {:x}", rng.next() & 0xcd5));
+            const NAMES: [&str; 16] = ["RAX", "RCX", "RDX", "RBX", "RSP", "RBP", "RSI", "RDI", "R8", "R9", "R10", "R11", "R12", "R13", "R14", "R15"];
+            for &n in &named {
+                let v = if n == 4 {
+                    STACK + 0x800
+                } else {
+                    match rng.below(5) {
+                        0 => rng.below(4),
+                        1 => STACK + 0x400 + 8 * rng.below(0x40),
+                        2 => rng.below(0x10000),
+                        _ => rng.val(),
+                    }
+                };
+                raw.push(format!("rw 64 {} {:x}", NAMES[n], v));
+            }
+            raw.push("step".into());
+            raw.push("state".into());
+            for &n in &named {
+                raw.push(format!("rr 64 {}", NAMES[n]));
+            }
+            raw.push("rr 64 RIP".into());
+            raw.push(format!("mrb {:x} 100", STACK + 0x780));
+        }
     }
     // many pipes open at once: descriptor numbers are random (and never observed here), but which bytes arrive where and how
     // many a read returns is decided by the program alone
